@@ -622,10 +622,21 @@ def execute(plan):
 
     gspec = plan["grid"]
     grid = _build_grid(gspec)
-    mesh = _mesh_invariants(plan, fail, probe)
+    def invariants(pl):
+        # the setup invariants only call documented mesh methods with legal arguments: an exception is py-pde's, not the harness'
+        try:
+            return _mesh_invariants(pl, fail, probe)
+        except Exception as err:  # noqa: BLE001
+            import traceback
+
+            where = traceback.extract_tb(err.__traceback__)[-1]
+            fail("C17/setup-raised", f"a mesh method raised {type(err).__name__}: {err} (in {where.filename.split('/')[-1]}:{where.lineno} {where.name}) for "
+                 f"{pl['grid']}, decomposition {pl['decomposition']}")
+            return None
+
+    mesh = invariants(plan)
     if plan.get("big_mesh") and viol is None:
-        _mesh_invariants({**plan, "grid": plan["big_mesh"]["grid"], "decomposition": plan["big_mesh"]["decomposition"], "dtype": "float"},
-                         fail, probe)
+        invariants({**plan, "grid": plan["big_mesh"]["grid"], "decomposition": plan["big_mesh"]["decomposition"], "dtype": "float"})
         probe("setup_invariants_on_large_decomposition")
         if max(plan["big_mesh"]["decomposition"]) >= 11:
             probe("eleven_or_more_chunks_on_an_axis")
